@@ -1,5 +1,6 @@
 """C15 - dissemination accounting: updates gossiped at most max_transmissions times."""
 from .lib import query as q
+from . import common as _cmn
 from .lib.budget import buffer_id
 from .lib.effects import Effects
 from .lib.symx import show
@@ -493,7 +494,7 @@ def r4_r5_consumers_enqueuers(ctx, f, rep):
                     good = len(ser) >= 1 and q.ok_payload_of(p, data) in [c['id'] for c in ser]
                     why = 'data is not the result of serialize_member'
                     if good:
-                        m = [c for c in ser if c['id'] == q.ok_payload_of(p, data)][0]['args'][1]
+                        m = _cmn.member_arg(f, [c for c in ser if c['id'] == q.ok_payload_of(p, data)][0])
                         if m[0] == 'agg':
                             mid = q.agg_field(m, 'id')
                             good = mid == keyed
